@@ -63,7 +63,7 @@ func lengthFail(ti typeInfo, what string, enc []byte) *common.Fail {
 // encDecFloat encodes x with type ti and decodes the result.
 func encDecFloat(ti typeInfo, a, b dpt.Datapoint, x float32) (float32, []byte, *common.Fail) {
 	setFloat(a, x)
-	enc := a.Pack()
+	enc := packOwned(a)
 	what := fmt.Sprintf("value %v (bits %#08x)", x, math.Float32bits(x))
 	if f := lengthFail(ti, what, enc); f != nil {
 		return 0, enc, f
@@ -173,7 +173,7 @@ func getInt(d dpt.Datapoint) int64 {
 // c07Int: integer-, enumeration- and bool-typed datapoints.
 func c07Int(ti typeInfo, a, b dpt.Datapoint, i int64) *common.Fail {
 	setInt(a, i)
-	enc := a.Pack()
+	enc := packOwned(a)
 	what := fmt.Sprintf("value %d", i)
 	if f := lengthFail(ti, what, enc); f != nil {
 		return f
@@ -230,7 +230,7 @@ func c07Fields(ti typeInfo, a, b dpt.Datapoint, f []int64) *common.Fail {
 	}
 	orig := reflect.New(deref(a).Type())
 	orig.Elem().Set(deref(a))
-	enc := a.Pack()
+	enc := packOwned(a)
 	what := fmt.Sprintf("value %+v", deref(a).Interface())
 	if fl := lengthFail(ti, what, enc); fl != nil {
 		return fl
@@ -278,7 +278,7 @@ func wantString16(s string, maxRune rune) string {
 
 func c07String(ti typeInfo, a, b dpt.Datapoint, s string) *common.Fail {
 	deref(a).SetString(s)
-	enc := a.Pack()
+	enc := packOwned(a)
 	what := fmt.Sprintf("string %q", s)
 	if f := lengthFail(ti, what, enc); f != nil {
 		return f
